@@ -414,7 +414,16 @@ func (c *Ctx) mayPanic(e ast.Expr) bool {
 				p = true
 			}
 		case *ast.SelectorExpr:
-			// field access through pointer may be a nil dereference; receivers are assumed non-nil
+			// field access through a pointer may be a nil dereference; receivers are assumed non-nil
+			if _, isPtr := c.typeOf(y.X).(*types.Pointer); isPtr {
+				isRecv := false
+				if id, ok := y.X.(*ast.Ident); ok && c.Fr != nil && c.Fr.Sig != nil && c.Fr.Sig.Recv() != nil && id.Name == c.Fr.Sig.Recv().Name() {
+					isRecv = true
+				}
+				if !isRecv {
+					p = true
+				}
+			}
 		}
 		return !p
 	})
